@@ -1055,36 +1055,46 @@ def transform(fn, proceed, to_instrument=True, set_conformer=True):
     new_fn = _compile(filename, new_tree, freevars)
 
     fname = fn.__name__
-    has_save = fname in glb
-    save = glb.get(fname, None)
-    exec(new_fn, glb, glb)
 
     try:
         from codefind import code_registry
 
         co = fn.__code__
-        code_registry.assimilate(co, (co.co_filename,))
+        qualpath = [
+            part
+            for part in fn.__qualname__.split(".")[:-1]
+            if part != "<locals>"
+        ]
+        code_registry.assimilate(co, (co.co_filename, *qualpath))
     except ImportError:  # pragma: no cover
         pass
 
-    # Get the new function (populated with exec)
-    if "#WRAP" in glb:
-        # If the function is a closure, we have created a function
-        # called #WRAP that takes the closure variables as arguments
-        # and returns the function that interests us.
-        actual_fn = glb.pop("#WRAP")(
-            *[cell.cell_contents for cell in fn.__closure__]
+    # Build the new function directly from the code object of the rewritten
+    # definition. The definition is not executed: this would rebind fname in
+    # the module, re-evaluate the defaults, copy the closure cells, and make
+    # codefind register the new code as a top level function of the file.
+    actual_code = new_fn
+    for name in (["#WRAP"] if freevars else []) + [fname]:
+        actual_code = next(
+            ct
+            for ct in actual_code.co_consts
+            if isinstance(ct, types.CodeType) and ct.co_name == name
         )
-    else:
-        actual_fn = glb[fname]
+    cells = dict(zip(fn.__code__.co_freevars, fn.__closure__ or ()))
+    actual_fn = types.FunctionType(
+        actual_code,
+        glb,
+        fname,
+        fn.__defaults__,
+        tuple(cells[name] for name in actual_code.co_freevars) or None,
+    )
+    actual_fn.__kwdefaults__ = fn.__kwdefaults__
+    actual_fn.__annotations__ = dict(fn.__annotations__)
+    actual_fn.__qualname__ = fn.__qualname__
+    actual_fn.__module__ = fn.__module__
+    actual_fn.__doc__ = fn.__doc__
 
     glb[fnsym] = actual_fn
-
-    # However, we don't want to change the existing mapping of fn
-    if has_save:
-        glb[fname] = save
-    else:
-        glb.pop(fname, None)
 
     all_vars = transformer.used | transformer.assigned
 
@@ -1128,6 +1138,10 @@ class TransformSet:
             argdefs=fn.__defaults__,
             closure=fn.__closure__,
         )
+        self.base_function.__kwdefaults__ = fn.__kwdefaults__
+        self.base_function.__annotations__ = dict(fn.__annotations__)
+        self.base_function.__qualname__ = fn.__qualname__
+        self.base_function.__module__ = fn.__module__
         self.base_function.__ptera_discard__ = True
         self._register(None, fn)
 
@@ -1159,6 +1173,9 @@ class TransformSet:
             to_instrument=captures,
             set_conformer=self.set_conformer,
         )
+        # Only the target function, on which the code is installed, should be
+        # found when looking up functions by code
+        transformed.__ptera_discard__ = True
         return self._register(captures, transformed)
 
 
